@@ -176,6 +176,39 @@ def qualText (j : Json) : R Json := do
   | k => throw s!"C10: unknown qualtext kind {k}"
 
 
+def domOfJson (j : Json) : R Dom := do
+  return ⟨← featOfJson (← fld j "feat"), ← strF j "tool", ← strF j "locus_tag", ← intF j "p_start", ← intF j "p_end",
+          ← optOf asStr j "domain", ← listOf asStr (← fld j "asf"), ← optOf asStr j "domain_id", ← optOf asStr j "database",
+          ← optOf asStr j "detection", ← optOf asStr j "label", ← optOf asStr j "evalue", ← optOf asStr j "score",
+          ← strF j "translation"⟩
+def domToJson (d : Dom) : Json :=
+  jObj [("feat", featToJson d.feat), ("tool", Json.str d.tool), ("locus_tag", Json.str d.locusTag),
+        ("p_start", toJson d.pStart), ("p_end", toJson d.pEnd), ("domain", optToJson Json.str d.domain),
+        ("asf", jStrs d.asf), ("domain_id", optToJson Json.str d.domainId), ("database", optToJson Json.str d.database),
+        ("detection", optToJson Json.str d.detection), ("label", optToJson Json.str d.label),
+        ("evalue", optToJson Json.str d.evalue), ("score", optToJson Json.str d.score), ("translation", Json.str d.translation)]
+
+/-- domains and motifs outside any record: write, read back, write again; or read an arbitrary feature -/
+def domOp (j : Json) : R Json := do
+  let kind ← match ← strF j "kind" with
+    | "aSDomain" => pure DomKind.asDomain
+    | "CDS_motif" => pure DomKind.motif
+    | k => throw s!"C10: unknown domain kind {k}"
+  match j.getObjVal? "bio" with
+  | .ok bj =>
+    let b ← bioOfJson bj
+    return jObj [("back", eToJson domToJson (Dom.fromBio kind b))]
+  | .error _ =>
+    let d ← domOfJson (← fld j "d")
+    let b := d.toBio
+    let back : E Dom := do Dom.fromBio kind (← b)
+    let again : E Bio := do (← back).toBio
+    return jObj [("bio", eToJson (fun b => biosToJson [b]) b), ("back", eToJson domToJson back),
+                 ("again", eToJson (fun b => biosToJson [b]) again),
+                 ("same", toJson (match back with | .ok d' => d' == { d with feat := d'.feat } | _ => false)),
+                 ("scope", toJson (domWFb kind d))]
+
+
 def handle (j : Json) : R Json := do
   let f ← strF j "f"
   match f with
@@ -230,6 +263,7 @@ def handle (j : Json) : R Json := do
                  ("model_merged", optToJson (fun (r : Loc) => locToJson (mergeAdjoining r)) rr),
                  ("scope", toJson (ProtDna.geneWF l && decide (0 ≤ ld) && decide (0 ≤ tl) && decide (ld + tl < l.len / 3)))]
   | "qualtext" => qualText j
+  | "dom" => domOp j
   | "read" =>
     -- `Record.from_biopython` on an arbitrary feature list
     let bios ← listOf bioOfJson (← fld j "bios")
